@@ -2404,6 +2404,20 @@ func (s *Store) ensureCheckTxn(tx WriteTxn, idx uint64, preserveIndexes bool, hc
 		existingCheck := existing.(*structs.HealthCheck)
 		hc.CreateIndex = existingCheck.CreateIndex
 		hc.ModifyIndex = existingCheck.ModifyIndex
+		// The same check ID registered against another service of the node: the
+		// check leaves the service it was attached to, whose health watchers
+		// must see an index change as well (only the new service is bumped below).
+		if existingCheck.ServiceID != hc.ServiceID {
+			var err error
+			if existingCheck.ServiceID == "" {
+				err = updateAllServiceIndexesOfNode(tx, idx, existingCheck.Node, &existingCheck.EnterpriseMeta, existingCheck.PeerName)
+			} else {
+				err = catalogUpdateServiceIndexes(tx, idx, existingCheck.ServiceName, &existingCheck.EnterpriseMeta, existingCheck.PeerName)
+			}
+			if err != nil {
+				return err
+			}
+		}
 	} else if !preserveIndexes {
 		hc.CreateIndex = idx
 	}
